@@ -40,7 +40,7 @@ e.g. knob `k` drives `a`, `b` from `x`, and `c := a + b` reads both knob targets
                                assignments; an expression can raise).  On integer data with `+ - *` expressions it is a
                                theorem: the call completes, whatever the integer assigned;
 * `mixedScopeB`, `consistentMB`, `mixedRunB`, `mixedStaticB`, `intWorldB`, … with soundness lemmas, `C01M_decided`,
-  `C01M_total_decided`       — every hypothesis as a Boolean test the driver can evaluate;
+  `C01M_total_decided`       — every hypothesis as a Boolean test (the driver evaluates `mixedScopeB` per assignment line);
 * `MixedExample`             — knob `#K` (source `d.x`, weights `[2, -1]`, targets `d.a`, `d.b`), `d.c := d.a + d.b`,
                                `d.x := 5`: hypotheses and final store by `decide` / `rfl`, the theorems instantiated, the
                                universally quantified `example_any_history`, and three witnesses of what the MODEL does
@@ -1333,7 +1333,7 @@ def knobSrcPlainB (defs : List MTask) (p : Path) (k : MTask) : Bool :=
     defs.all (fun u => (leafTargets u).all (fun a => !(comparable a src)))
   | _ => true
 
-/-- `ScopeM`, as the driver evaluates it (plus H1, acyclicity below the start set, which is what makes
+/-- `ScopeM` as a Boolean test — evaluated by the driver on every `set` line, field `scope_m` — (plus H1, acyclicity below the start set, which is what makes
     `validSchedule` a sound test of `ValidSched`) -/
 def mixedScopeB (s : MState) (p : Path) : Bool :=
   s.defs.all (fun t => declOKB t || knobDeclB t) && pathOKB p &&
@@ -1418,7 +1418,7 @@ theorem consistentMB_sound {B : Path → List Int} {s : MState} (h : consistentM
   · rw [isKnobB_iff.mpr hkn] at h1; cases h1
   · exact knobSettledB_sound h1
 
-/-- the executable form of `MixedRun`: what the driver evaluates assignment by assignment -/
+/-- the executable form of `MixedRun` (not run by the driver, which evaluates `mixedScopeB` line by line) -/
 def mixedRunB (sched : Sched) : MState → List (Path × Int) → Bool
   | _, [] => true
   | s, (p, v) :: rest =>
@@ -1436,7 +1436,7 @@ theorem mixedRunB_sound (sched : Sched) : ∀ (as : List (Path × Int)) (s : MSt
       isNone_eq _ h4, mixedRunB_sound sched rest _ h5⟩
 
 /-- **C01 with knobs, every hypothesis decided**: from a state reachable through the API that passes `consistentMB`,
-    a series of assignments the driver accepts one by one (`mixedRunB`) ends in a consistent state. -/
+    a series of assignments accepted one by one by `mixedRunB` ends in a consistent state. -/
 theorem C01M_decided (sched : Sched) (B : Path → List Int) (as : List (Path × Int)) (s : MState) (hi : MInv s)
     (hc : consistentMB B s = true) (h : mixedRunB sched s as = true) : ConsistentM B (mixedAssignAll sched s as) :=
   (mixedRun_consistent sched B as s hi (consistentMB_sound hc) (mixedRunB_sound sched as s h)).1
@@ -1465,7 +1465,7 @@ theorem intTaskB_sound {R : List Path} {t : MTask} (h : intTaskB R t = true) : I
   rw [e] at h3
   simp at h3
 
-/-- `MixedStatic`, as the driver evaluates it -/
+/-- `MixedStatic` as a Boolean test (sound; not run by the driver) -/
 def mixedStaticB (sched : Sched) (R : List Path) (s : MState) (p : Path) : Bool :=
   (lookDef s.defs p).isNone && mixedScopeB s p &&
   validSchedule s.idx (chainR p) (sched (findTaskids s.idx (chainR p))) && decide (p ∈ R) &&
